@@ -68,6 +68,10 @@ def dynamic_evaluate(evaluate_fn: Optional[Callable[[base.HyperValue], Any]],
     raise ValueError(
         f'\'exit_fn\' must be a callable object. Encountered: {exit_fn!r}.')
   old_evaluate_fn = base.get_dynamic_evaluate_fn()
+  # A thread that had no function of its own must be left without one, so that
+  # it keeps deferring to the process-wide function afterwards.
+  restore_thread_local = (
+      not per_thread or base.has_thread_local_dynamic_evaluate_fn())
   has_errors = False
   try:
     base.set_dynamic_evaluate_fn(evaluate_fn, per_thread)
@@ -76,7 +80,10 @@ def dynamic_evaluate(evaluate_fn: Optional[Callable[[base.HyperValue], Any]],
     has_errors = True
     raise
   finally:
-    base.set_dynamic_evaluate_fn(old_evaluate_fn, per_thread)
+    if restore_thread_local:
+      base.set_dynamic_evaluate_fn(old_evaluate_fn, per_thread)
+    else:
+      base.clear_thread_local_dynamic_evaluate_fn()
     if not has_errors and exit_fn is not None:
       exit_fn()
 
